@@ -459,7 +459,22 @@ func (env *SpecEnv) evalCall(e *SExpr) Val {
 		return Val{T: app("select", fc.heapGet(env.st(), key, srt), arg(1).T), Ty: tBool}
 	case "sleepers", "woken": // ghost counters of a sync.Cond (number parked / signalled and not yet resumed)
 		key := map[string]string{"sleepers": "$condsleep", "woken": "$condwoken"}[name]
-		return Val{T: app("select", fc.heapGet(env.st(), key, "(Array Int Int)"), arg(0).T), Ty: tInt}
+		var ref string
+		if a := e.Args[0]; a.Kind == SField {
+			// x.cond where cond is a sync.Cond value field: its address identifies the condition variable
+			base := env.eval(a.Args[0])
+			if sT, owner, isPtr := structOf(base.Ty); sT != nil && isPtr {
+				if idx := fieldIndex(owner, a.Name); idx >= 0 {
+					if _, isStruct := sT.Field(idx).Type().Underlying().(*types.Struct); isStruct {
+						ref = fc.fieldAddr(env.st(), base, idx, token.NoPos).T
+					}
+				}
+			}
+		}
+		if ref == "" {
+			ref = arg(0).T
+		}
+		return Val{T: app("select", fc.heapGet(env.st(), key, "(Array Int Int)"), ref), Ty: tInt}
 	case "store": // store(a, i, v): functional update of a ghost array
 		a := arg(0)
 		at, ok := a.Ty.Underlying().(*types.Array)
@@ -711,6 +726,11 @@ func (fc *FnCtx) resolveType0(text string, pkg *types.Package) types.Type {
 	}
 	if i := strings.LastIndex(text, "."); i >= 0 {
 		pn, tn := text[:i], text[i+1:]
+		if pkg != nil && (pkg.Name() == pn || pkg.Path() == pn) {
+			if o, ok := pkg.Scope().Lookup(tn).(*types.TypeName); ok {
+				return o.Type()
+			}
+		}
 		if pkg != nil {
 			for _, imp := range pkg.Imports() {
 				if imp.Name() == pn || imp.Path() == pn {
@@ -722,6 +742,19 @@ func (fc *FnCtx) resolveType0(text string, pkg *types.Package) types.Type {
 		}
 		if p, ok := fc.eng.typesPkgs[pn]; ok {
 			if o, ok := p.Scope().Lookup(tn).(*types.TypeName); ok {
+				return o.Type()
+			}
+		}
+		// any loaded package with that name (extern specs name library types by package name)
+		var paths []string
+		for path, p := range fc.eng.typesPkgs {
+			if p.Name() == pn {
+				paths = append(paths, path)
+			}
+		}
+		sort.Strings(paths)
+		for _, path := range paths {
+			if o, ok := fc.eng.typesPkgs[path].Scope().Lookup(tn).(*types.TypeName); ok {
 				return o.Type()
 			}
 		}
